@@ -116,8 +116,8 @@ def okS5 (pk : Bool) (ps imp : List String) (ρ : String → Option Word) : X.St
   | .while c b => cond5 pk ps imp ρ c && okS5 pk ps imp ρ b
   | .seq ss => okS5L pk ps imp ρ ss
   | .assign _ e => rhs5 pk ps imp ρ e
-  | .syscall id args => decide (id < 3) && args.all pureE
-  | .call f args => (ps.contains f && argsOk5 pk ps imp ρ args) || (valSys ρ f && args.all pureE)
+  | .syscall id args => decide (id < 3) && sysArgs5 pk ps imp ρ args
+  | .call f args => (ps.contains f && argsOk5 pk ps imp ρ args) || (valSys ρ f && sysArgs5 pk ps imp ρ args)
   | .assignSub _ i e => pureE i && pureE e
 def okS5L (pk : Bool) (ps imp : List String) (ρ : String → Option Word) : List X.Stmt → Bool
   | [] => true
@@ -148,7 +148,10 @@ theorem okS4_okS5 (pk : Bool) (ps imp : List String) (ρ : String → Option Wor
     simp only [okS4] at h
     simp only [okS5]
     exact okS4L_okS5L pk ps imp ρ ss h
-  | .syscall _ _, h => by simp only [okS4] at h; simp only [okS5]; exact h
+  | .syscall _ _, h => by
+    simp only [okS4, Bool.and_eq_true] at h
+    simp only [okS5, sysArgs5, Bool.and_eq_true, Bool.or_eq_true]
+    exact ⟨h.1, Or.inl h.2⟩
   | .call _ _, h => by
     simp only [okS4, Bool.and_eq_true] at h
     simp only [okS5, argsOk5, Bool.and_eq_true, Bool.or_eq_true]
